@@ -480,12 +480,17 @@ impl Server {
     /// A pop performed for a BLPOP/BRPOP client (at once, or when it is served later) changes the dataset without
     /// passing through the write-command table: log it as the plain pop it was
     fn log_blocking_pop(&self, db: usize, left: bool, key: &[u8]) {
+        let entry = [
+            RespFrame::from_string(if left { "LPOP" } else { "RPOP" }),
+            RespFrame::from_bytes(key.to_vec()),
+        ];
+        self.log_effect(db, &entry);
+    }
+    
+    /// Append an entry that stands for the effect of a command (see `is_logged_by_effect`, `log_blocking_pop`)
+    fn log_effect(&self, db: usize, entry: &[RespFrame]) {
         if let Some(aof) = &self.aof_engine {
-            let entry = [
-                RespFrame::from_string(if left { "LPOP" } else { "RPOP" }),
-                RespFrame::from_bytes(key.to_vec()),
-            ];
-            if let Err(e) = aof.append_command_in_db(db, &entry) {
+            if let Err(e) = aof.append_command_in_db(db, entry) {
                 eprintln!("Failed to append to AOF: {}", e);
             }
         }
@@ -1313,9 +1318,10 @@ impl Server {
             None
         };
         
-        // Log to AOF for write commands
+        // Log to AOF for write commands (those logged by their effect are appended once the outcome is known)
+        let logged_by_effect = Self::is_logged_by_effect(&command_name, parts);
         if let Some(aof) = &self.aof_engine {
-            if self.is_write_command(&command_name) {
+            if self.is_write_command(&command_name) && !logged_by_effect {
                 if let Err(e) = aof.append_command_in_db(db, parts) {
                     eprintln!("Failed to append to AOF: {}", e);
                 }
@@ -1623,6 +1629,15 @@ impl Server {
             }
         }
         
+        // A random draw or an id drawn from the clock: log what the command did, not what it said
+        if logged_by_effect {
+            if let Ok(resp) = &result {
+                if let Some(entry) = Self::effect_entry(&command_name, parts, resp) {
+                    self.log_effect(db, &entry);
+                }
+            }
+        }
+        
         // Auto-save change recording - always enabled (independent of monitoring)
         if self.is_write_command(&command_name) {
             if let Ok(resp) = &result {
@@ -1721,6 +1736,48 @@ impl Server {
     fn record_change(&self) {
         if let Some(monitor) = &self.storage_monitor {
             monitor.record_change();
+        }
+    }
+    
+    /// Commands whose text does not replay to the same outcome - a random draw (SPOP), an id drawn from the clock
+    /// (XADD key * ...), a script known only by its hash (EVALSHA) - are logged by their effect instead:
+    /// `SREM key <members taken>`, `XADD key <assigned id> ...`, `EVAL <script> ...`
+    fn is_logged_by_effect(command: &str, parts: &[RespFrame]) -> bool {
+        match command {
+            "SPOP" | "EVALSHA" => true,
+            "XADD" => matches!(parts.get(2), Some(RespFrame::BulkString(Some(id))) if id.as_slice() == b"*"),
+            _ => false,
+        }
+    }
+    
+    /// The entry that replays to what `parts` did, given its reply (`None`: it changed nothing)
+    fn effect_entry(command: &str, parts: &[RespFrame], reply: &RespFrame) -> Option<Vec<RespFrame>> {
+        match command {
+            "SPOP" => {
+                let members: Vec<RespFrame> = match reply {
+                    RespFrame::BulkString(Some(_)) => vec![reply.clone()],
+                    RespFrame::Array(Some(items)) => items.iter()
+                        .filter(|item| matches!(item, RespFrame::BulkString(Some(_))))
+                        .cloned()
+                        .collect(),
+                    _ => Vec::new(),
+                };
+                if members.is_empty() {
+                    return None;
+                }
+                let mut entry = vec![RespFrame::from_string("SREM"), parts.get(1)?.clone()];
+                entry.extend(members);
+                Some(entry)
+            }
+            "XADD" => match reply {
+                RespFrame::BulkString(Some(_)) => {
+                    let mut entry = parts.to_vec();
+                    entry[2] = reply.clone();
+                    Some(entry)
+                }
+                _ => None,
+            },
+            _ => None,
         }
     }
     
@@ -3463,6 +3520,9 @@ impl Server {
             RespFrame::BulkString(Some(std::sync::Arc::new(script.into_bytes()))),
         ];
         eval_parts.extend_from_slice(&parts[2..]);
+        
+        // The hash means nothing to a server that replays the log: append the EVAL this call stands for
+        self.log_effect(db, &eval_parts);
         
         // Execute as EVAL on the selected database
         crate::storage::commands::lua::handle_eval_with_db(&self.storage, &eval_parts, db)
